@@ -8,7 +8,7 @@ RULE = ('integers: exhaustive symmetric range (quick +-2^16, thorough +-2^20) + 
         '+-2 of 32^k/2 for k<=80 + Hypothesis unbounded integers, integer lists, mappings structures '
         '(>=1 line, segments of 1/4/5 and other lengths) and canonical VLQ strings built from the grammar; '
         'oracles: decode(encode(x))==x at value/list/mappings level, encode(decode(s))==s for canonical s, '
-        'and both directions against an independent reference codec (R4). '
+        'and both directions against an independent reference codec (R4); a third of the cases run right after a call that failed part way (invalid element after valid ones, producer raising midway, malformed string). '
         'non-trivial = a case containing a value with |v|>=16 (multi-digit) or v<0; distinct by value/structure')
 ASSUMPTIONS = ['R4 reference codec (harness/ref_vlq.py) is validated against worked examples at start']
 
@@ -110,8 +110,39 @@ def check_string(acc, vlq, s, opens):
         acc.fail('c10.exception', case, {'bucket': type(e).__name__, 'error': repr(e)}, opens)
 
 
+def _raising():
+    yield 3
+    yield -7
+    raise ValueError('producer fails midway')
+
+
+FAULTS = [
+    lambda vlq: vlq.encode_vlqs([1, None]),
+    lambda vlq: vlq.encode_vlqs(_raising()),
+    lambda vlq: vlq.encode_vlqs([5, 1000, 'x', 2]),
+    lambda vlq: vlq.encode_mappings([[(1, 2, 3, 4)], [(0, 'x')]]),
+    lambda vlq: vlq.encode_vlq('a'),
+    lambda vlq: vlq.decode_vlqs('AC!!'),
+    lambda vlq: vlq.decode_vlq('gg'),
+    lambda vlq: vlq.decode_mappings('AAAA,%;g'),
+    lambda vlq: vlq.decode_vlqs(None),
+]
+
+
+def inject(vlq, fault):
+    """a call that fails part way (invalid element after valid ones, producer raising, malformed string);
+    whatever it raises is the caller's business - the calls that follow must be unaffected"""
+    if fault is None:
+        return
+    try:
+        FAULTS[fault](vlq)
+    except Exception:
+        pass
+
+
 def replay(case, acc):
     from calmjs.parse import vlq
+    inject(vlq, case.get('after_failed_call'))
     k = case['kind']
     if k == 'int':
         check_int(acc, vlq, int(case['value']), ())
@@ -178,9 +209,14 @@ def run_shard(shard):
         case = st.one_of(st.tuples(st.just('int'), ints), st.tuples(st.just('list'), st.lists(ints, max_size=12)),
                          st.tuples(st.just('mappings'), mappings), st.tuples(st.just('string'), canon_str))
 
-        def body(x):
+        def body(xf):
+            x, fault = xf
             k, v = x
             acc.label('kind_' + k)
+            if fault is not None:
+                acc.label('after_failed_call')
+                inject(vlq, fault)
+                before = len(acc.failures)
             if k == 'int':
                 check_int(acc, vlq, v, opens)
                 acc.case(('i', v), _nontrivial_vals([v]), {'int': str(v), 'encoded': vlq.encode_vlq(v)})
@@ -196,7 +232,11 @@ def run_shard(shard):
             else:
                 check_string(acc, vlq, v, opens)
                 acc.case(('s', v), len(v) > 1, {'canonical_string': v})
-        run_given(case, body, shard['n'], shard['hseed'], acc)
+            if fault is not None:
+                for f in acc.failures[before:]:
+                    f['case']['after_failed_call'] = fault
+        run_given(st.tuples(case, st.one_of(st.none(), st.none(), st.integers(0, len(FAULTS) - 1))), body,
+                  shard['n'], shard['hseed'], acc)
     return acc.result()
 
 
